@@ -36,14 +36,14 @@ type C16Case struct {
 // UNBLOCK, CLIENT KILL, closed socket) at the same moment at which another connection pushes to the list
 // they wait for; the offset between the two events is swept over +-1.5 ms across the rounds.
 type C16Edge struct {
-	Kind      int `json:"kind"` // 1 timeout 2 CLIENT UNBLOCK 3 socket closed 4 CLIENT KILL 5 large values scanned while written
+	Kind      int `json:"kind"` // 1 timeout 2 CLIENT UNBLOCK 3 socket closed 4 CLIENT KILL 5 large values scanned while written 6 transaction reaching into another database
 	Rounds    int `json:"rounds"`
 	Waiters   int `json:"waiters"`
 	TimeoutMs int `json:"timeout_ms"`
 	Cmd       int `json:"cmd"` // 0 BLPOP 1 BRPOP two keys 2 BLMOVE 3 BLMPOP
 }
 
-var c16EdgeNames = []string{"", "timeout", "client-unblock", "socket-closed", "client-kill", "large-value-scanned-while-written"}
+var c16EdgeNames = []string{"", "timeout", "client-unblock", "socket-closed", "client-kill", "large-value-scanned-while-written", "transaction-reaching-into-another-database", "introspection-and-deadlines-across-databases"}
 
 // c16BigValue: a 256 KiB string, a hash and a list with large members; writers change them with the commands
 // that could work in place, readers scan them with the commands whose work is proportional to the size.
@@ -84,9 +84,111 @@ func c16BigValue(emu *kit.Emu, e C16Edge) {
 	wg.Wait()
 }
 
+// c16CrossDB: a transaction of a connection in database 5 SELECTs database 6, works there and comes back, while
+// another connection works in database 6. Command ids are numbered per database; the rounds walk the number
+// of commands database 5 has handled across the number database 6 had handled at its last EXEC (-2..+2), so
+// that every relation between the two counters - equal included - is met while the two connections overlap.
+func c16CrossDB(_ *kit.Emu, e C16Edge) {
+	// an emulator of its own: the counters of databases 5 and 6 start at zero (FLUSHALL of the mixed workload touches every database)
+	emu := kit.StartEmu("")
+	defer emu.Stop()
+	a, b, c := emu.Dial(), emu.Dial(), emu.Dial()
+	defer a.Close()
+	defer b.Close()
+	defer c.Close()
+	a.Do("SELECT", "5")
+	b.Do("SELECT", "6")
+	c.Do("SELECT", "6")
+	cnt5, cnt6 := 0, 0
+	const inner = 12 // commands the transaction runs in database 6
+	for r := 0; r < e.Rounds; r++ {
+		delta := r%5 - 2
+		// database 6 gets ahead, then its EXEC leaves its id behind
+		for cnt6+3 < cnt5+inner+4+3 {
+			b.Do("PING")
+			cnt6++
+		}
+		b.Do("MULTI")
+		b.Do("SET", "y", strconv.Itoa(r))
+		b.Do("EXEC")
+		cnt6 += 3
+		idB := cnt6
+		// the transaction of A: MULTI, SELECT 6, inner commands, SELECT 5, EXEC
+		for pad := idB + delta - (cnt5 + inner + 4); pad > 0; pad-- {
+			a.Do("PING")
+			cnt5++
+		}
+		a.Do("MULTI")
+		a.Do("SELECT", "6")
+		for i := 0; i < inner; i++ {
+			if i%2 == 0 {
+				a.Do("SET", "x", strconv.Itoa(i))
+			} else {
+				a.Do("GET", "x")
+			}
+		}
+		a.Do("SELECT", "5")
+		var wg sync.WaitGroup
+		wg.Add(1)
+		const burst = 16
+		go func() {
+			defer wg.Done()
+			for i := 0; i < burst; i++ {
+				if i%2 == 0 {
+					c.Do("GET", "x")
+				} else {
+					c.Do("APPEND", "x", "z")
+				}
+			}
+		}()
+		a.Do("EXEC")
+		wg.Wait()
+		cnt5 += inner + 4
+		cnt6 += burst + inner + 1 // + the queued SELECT 5, which is re-issued on the database it runs in
+	}
+}
+
+// c16Introspect: connections that watch keys of database 6 and keep changing them and their deadlines, readers
+// of those deadlines, and a connection of database 5 whose transactions SELECT database 6, list the clients
+// (which reports each client's watch state) and come back.
+func c16Introspect(emu *kit.Emu, e C16Edge) {
+	var wg sync.WaitGroup
+	run := func(db string, rounds int, cmds [][]string) {
+		wg.Add(1)
+		go func() {
+			defer wg.Done()
+			cn, err := kit.Dial(emu.Addr)
+			if err != nil {
+				return
+			}
+			cn.Proto = 0
+			defer cn.Close()
+			cn.Do("SELECT", db)
+			for r := 0; r < rounds; r++ {
+				cn.DoT(3*time.Second, cmds[r%len(cmds)]...)
+			}
+		}()
+	}
+	n := e.Rounds * 4
+	run("5", n, [][]string{{"MULTI"}, {"SELECT", "6"}, {"CLIENT", "LIST"}, {"CLIENT", "INFO"}, {"TTL", "wk"}, {"SELECT", "5"}, {"EXEC"}})
+	run("6", n, [][]string{{"WATCH", "wk", "wk2"}, {"GET", "wk"}, {"MULTI"}, {"SET", "wk", "v"}, {"EXEC"}, {"UNWATCH"}})
+	run("6", n, [][]string{{"SET", "wk", "1"}, {"EXPIRE", "wk", "100"}, {"PERSIST", "wk"}, {"PEXPIREAT", "wk", "4102444800000"}, {"GETEX", "wk", "EX", "50"}, {"DEL", "wk"}, {"SET", "wk2", "x", "PX", "5000"}})
+	run("6", n, [][]string{{"TTL", "wk"}, {"PTTL", "wk"}, {"EXPIRETIME", "wk"}, {"PEXPIRETIME", "wk"}, {"TTL", "wk2"}, {"CLIENT", "LIST"}, {"OBJECT", "IDLETIME", "wk"}, {"TOUCH", "wk"}})
+	run("0", n, [][]string{{"CLIENT", "LIST"}, {"INFO"}, {"CLIENT", "INFO"}, {"DBSIZE"}})
+	wg.Wait()
+}
+
 func c16EdgeRun(emu *kit.Emu, e C16Edge) {
+	if e.Kind == 7 {
+		c16Introspect(emu, e)
+		return
+	}
 	if e.Kind == 5 {
 		c16BigValue(emu, e)
+		return
+	}
+	if e.Kind == 6 {
+		c16CrossDB(emu, e)
 		return
 	}
 	pusher, ctl := emu.Dial(), emu.Dial()
@@ -206,7 +308,7 @@ func c16Gen(t *rapid.T) C16Case {
 		c.Drops = append(c.Drops, d)
 	}
 	if rapid.IntRange(0, 2).Draw(t, "edge") == 0 {
-		c.Edge = &C16Edge{Kind: rapid.IntRange(1, 5).Draw(t, "ekind"), Rounds: rapid.IntRange(10, 40).Draw(t, "erounds"), Waiters: rapid.IntRange(1, 8).Draw(t, "ewaiters"),
+		c.Edge = &C16Edge{Kind: rapid.IntRange(1, 7).Draw(t, "ekind"), Rounds: rapid.IntRange(10, 40).Draw(t, "erounds"), Waiters: rapid.IntRange(1, 8).Draw(t, "ewaiters"),
 			TimeoutMs: pick(t, "ems", 10, 15, 20), Cmd: rapid.IntRange(0, 3).Draw(t, "ecmd")}
 	}
 	return c
